@@ -14,7 +14,7 @@
                      1011 the reference semantics was undefined at every sample point
    ADVAN/TRANS streams ([verdict_adv]): see below. *)
 From Coq Require Import QArith List Bool PArith Arith.
-From PV Require Import Base.PyData Base.Expr Base.Interp Base.Stmts C01.Model.
+From PV Require Import Base.PyData Base.Expr Base.Interp Base.Stmts C01.Model C01.Parser.
 Import ListNotations.
 Local Open Scope nat_scope.
 
@@ -22,13 +22,28 @@ Local Open Scope nat_scope.
 Definition c01_fi2 (f : id) (x y : Q) : option Q :=
   if Pos.eqb f F_FMOD then (if Qeq_bool y 0 then None else Some (Qred (x - y * q_trunc (x / y))))
   else std_fi2 f x y.
-Definition c01_fi : finterp := {| fi1 := std_fi1; fi2 := c01_fi2 |}.
+(* base functions: Base/Interp.v, plus a value for LOG(10) so that LOG10(x) = LOG(x)/LOG(10) is defined
+   (sympy relates log(10) to nothing else the generator produces); the protected symbols are interpreted
+   by their clamp rule over the base functions, so that [protected_spec c01_fi] holds (Examples.v) *)
+Definition base_fi1 (f : id) (x : Q) : option Q :=
+  if Pos.eqb f F_LOG && Qeq_bool x 10 then Some 3%Q else std_fi1 f x.
+Definition base_fi : finterp := {| fi1 := base_fi1; fi2 := c01_fi2 |}.
+Definition c01_fi1 (f : id) (x : Q) : option Q :=
+  match prot_of_id f with
+  | Some p => eval (upd (fun _ => None) x0 (Some x)) base_fi (template p)
+  | None => base_fi1 f x
+  end.
+Definition c01_fi : finterp := {| fi1 := c01_fi1; fi2 := c01_fi2 |}.
 
 Record case := mkCase {
-  c_prog : body;                     (* the generated program (reference meaning of every expression) *)
+  c_use_toks : bool;                 (* the program is obtained by parsing c_toks with the reference parser *)
+  c_toks : list tok;                 (* the tokens of the printed control-stream code *)
+  c_ast : body;                      (* (only when c_use_toks = false) the program given directly *)
   c_impl : list stmt;                (* model.statements of read_model_from_string(text) *)
   c_envs : list (list (id * Q))      (* values of THETA/ETA/EPS/data items; program symbols undefined *)
 }.
+Definition c_parsed (c : case) : option body := if c_use_toks c then parse_prog (c_toks c) else Some (c_ast c).
+Definition c_prog (c : case) : body := match c_parsed c with Some p => p | None => BNil end.
 
 Definition tag (b : bool) (t : nat) : list nat := if b then [] else [t].
 
@@ -97,15 +112,19 @@ Definition check_oracle (c : case) : list nat :=
   let ms := map (model_at (c_prog c)) (c_envs c) in
   tag (negb (has 1 os)) 11 ++
   tag (has 0 os) 1011 ++
-  tag (negb (guard_code (c_prog c) && has 1 ms)) 21 ++
+  tag (negb (guard_code (read_body (c_prog c)) && has 1 ms)) 21 ++
   (* information: the faithful model deviates from the reference on this input *)
   tag (negb (has 1 ms)) 301.
 
-Definition guard_tags (p : body) : list nat :=
+Definition guard_tags (p0 : body) : list nat :=
+  let p := read_body p0 in
   tag (g_flat p) 201 ++ tag (g_once p) 202 ++ tag (g_cond_fresh p) 203 ++ tag (g_cover p) 204.
 
 Definition verdict (c : case) : list nat :=
-  check_corr c ++ check_oracle c ++ guard_tags (c_prog c).
+  match c_parsed c with
+  | None => [1091]            (* the reference parser refuses the token list: nothing can be concluded *)
+  | Some _ => check_corr c ++ check_oracle c ++ guard_tags (c_prog c)
+  end.
 
 (* ------------------------------------------------------------------------------------------ *)
 (* ADVAN/TRANS: comparison of flow lists by evaluation (used on the regenerated tables and on the
@@ -288,3 +307,32 @@ Definition verdict_oform (c : ocase) : list nat :=
     tag (spec_agrees (spec_omega c) (o_obs c)) 82 ++
     tag (match o_par c with Some p => ores_eqb (OOk p) (o_obs c) | None => true end) 83
   else [1081].
+
+(* ------------------------------------------------------------------------------------------ *)
+(* $DES: the differential equations of the compartmental system rebuilt by to_compartmental_system
+   (advan.py, `elif des:` branch) against the DADT(i) right-hand sides as written.  The written
+   equations are passed as tokens `D_i = rhs` and parsed by the reference parser.
+     91 the right-hand side of an equation of ode_system.eqs evaluates differently from DADT(i)
+     92 an equation is missing;  1091 the reference parser refuses the tokens *)
+Record dcase := mkDCase {
+  d_toks : list tok;
+  d_eqs : list (id * expr);            (* (symbol standing for DADT(i), right-hand side of cs.eqs[i]) *)
+  d_envs : list (list (id * Q))
+}.
+Fixpoint des_check (b : body) (c : dcase) : list nat :=
+  match b with
+  | BNil => []
+  | BCons (NAssign x e) tl =>
+      match alookup (d_eqs c) x with
+      | Some e' => tag (forallb (fun m => match eval (env_of m) c01_fi e with
+                                          | Some v => oq_eqb (Some v) (eval (env_of m) c01_fi e')
+                                          | None => false end) (d_envs c)) 91
+      | None => [92]
+      end ++ des_check tl c
+  | BCons _ tl => [92] ++ des_check tl c
+  end.
+Definition verdict_des (c : dcase) : list nat :=
+  match parse_prog (d_toks c) with
+  | Some b => des_check b c ++ tag (Nat.eqb (length (list_of_body b)) (length (d_eqs c))) 92
+  | None => [1091]
+  end.
